@@ -50,7 +50,16 @@ class C13(EgSpec):
     streams = [
         {'name': 'default', 'component': 'egs', 'config': 'default', 'quick': 300, 'thorough': 8000},
         {'name': 'checks', 'component': 'egs', 'config': 'checks', 'quick': 100, 'thorough': 2000},
+        # the executable premise of C13_eq_is_an_equivalence_on_reachable_states (every union is handed invocations that cover their
+        # classes) and the executable part of the invariant eg_inv2, evaluated by the model on the explored histories (machine egc)
+        {'name': 'invariant', 'component': 'egs', 'config': 'default', 'quick': 150, 'thorough': 3000, 'gen_extra': []},
     ]
+
+    def model_input(self, stream, case, impl_obs):
+        if stream['name'] == 'invariant':
+            pc = core.sx_parse(case)
+            return core.sx_show(['egc'] + pc[1:])
+        return case
 
     def evaluate(self, stream, case, impl_obs, model_obs, ctx):
         pc, pi = core.sx_parse(case), core.sx_parse(impl_obs)
@@ -58,6 +67,10 @@ class C13(EgSpec):
         r = monotone(pc, steps_of(pi))
         if r:
             out.append(('violation', r.split(' at operation')[0][:60], r + '; asserted: {%s}' % '; '.join(describe_history(pc)), {}))
+            return out
+        if stream['name'] == 'invariant':
+            if model_obs is not None and model_obs.strip() not in ('(inv (covered true) (invb true) (handles-cover true))', '(inv history-error)'):
+                out.append(('differs', 'invariant-premise', 'on this history the executable premise of the proved equivalence theorem, or the executable invariant, is false in the model: %s' % model_obs.strip(), {}))
             return out
         if model_obs is not None and core.sx_show(field(pi, 'steps')) != model_obs.strip():
             out.append(('differs', 'model-steps', 'per-operation observations differ from the e-graph model; equalities, slots and progress are monotone on the implementation', {'model': model_obs[:400]}))
